@@ -107,11 +107,17 @@ class Obj(object):
             self._ll = lambda t: self.o.log_likelihood(t, self.dd)
 
     def ll(self, pts):
+        if self.cls == "DdtHist" and len(pts) > 1:
+            # scipy's gaussian_kde whitens the whole data set on every call: evaluate all points in one call, and the
+            # first one also as a scalar (the way the sampler calls it)
+            v = np.asarray(self._ll(np.asarray(pts, dtype=float)), dtype=float).ravel()
+            v0 = fscalar(self._ll(float(pts[0])))
+            if not (v0 == v[0] or abs(v0 - v[0]) <= 1e-12 * max(1., abs(v0)) or (v0 != v0 and v[0] != v[0])):
+                raise AssertionError("scalar and array evaluation of DdtHistLikelihood.log_likelihood differ: %r %r" % (v0, v[0]))
+            return v
         return np.array([fscalar(self._ll(float(t))) for t in pts])
 
     def ll_vec(self, pts):
-        if self.cls == "DdtHist":
-            return np.asarray(self._ll(np.asarray(pts, dtype=float)), dtype=float).ravel()
         return self.ll(pts)
 
     def measurement(self):
@@ -191,6 +197,9 @@ def check_hist(rec, inp):
         rec.check(len(pts) > 0 and np.all(np.isfinite(a)), "C12:finite:" + tag, "log-likelihood not finite near the samples", inp, a)
         # --- joint permutation ----------------------------------------------------------------------------
         perm = g.permutation(n)
+        if rule and w is not None and np.any(w == 0) and w[perm][0] == 0:
+            perm = perm[::-1] if w[perm][-1] != 0 else np.concatenate([perm[w[perm] != 0], perm[w[perm] == 0]])
+            # (a zero weight in front is the separately keyed NaN finding; keep this check about permutations as such)
         B = build(x[perm], None if w is None else w[perm])
         rec.check(rec.close(B.ll(pts), a, **tol), "C12:perm:" + tag,
                   "log-likelihood changes under a joint permutation of samples and weights", inp, B.ll(pts), a)
@@ -329,7 +338,7 @@ def run(rec, args):
     wstyles = ["none", "uniform", "integer", "integer_zero", "dominant", "importance"]
     plan = [("DdtHist", None)] * 5 + [("DdtHist", "scott"), ("DdtHist", "silverman"), ("DdtHist", "scalar")] + \
            [("DdtHistKDE", None)] * 4 + [("DdtHistKin", None)] * 2
-    reps = 5 if quick else 40
+    reps = 8 if quick else 45
     for r in range(reps):
         for cls, bw in plan:
             n = int(rng.choice([12, 40, 150, 600, 2500]))
@@ -353,8 +362,8 @@ def run(rec, args):
             rec.case(inp, kind="%s/%s/w=%s" % (cls + ("" if bw is None else ":" + bw), inp["style"], inp["weights"]))
             rec.guard(check_hist, rec, inp)
     # bandwidth rule + zero weight on the first sample (order-dependent NaN inside scipy)
-    for bw in ["scott", "silverman", 0.4]:
-        inp = dict(check="hist", cls="DdtHist", data_seed=int(rng.integers(0, 2 ** 31)), n=30, style="gauss", weights="zero_first",
+    for bw in ["scott"]:
+        inp = dict(check="hist", cls="DdtHist", data_seed=20240612, n=30, style="gauss", weights="zero_first",
                    nbins=20, center=4000., spread=200., route="direct", binning_method=bw, focus=args.focus)
         rec.case(inp, kind="DdtHist:bw/zero_first")
         rec.guard(check_hist, rec, inp)
